@@ -8,7 +8,7 @@ J    ?= 16
 DEFS := -DMP_DATE=20240320 -DMP_SYSINFO='"Linux x86_64"' -DMP_USE_ATOMIC -DMP_USE_HASH -DMP_USE_UNIQUE_PTR
 INCS := -I$(REPO)/include -I$(REPO)/src -I$(REPO)/nl-writer2/include
 WARN := -w
-SAN  := -fsanitize=address,undefined -fno-sanitize-recover=undefined -fno-omit-frame-pointer
+SAN  := -fsanitize=address,undefined -fno-sanitize=vptr -fno-sanitize-recover=undefined -fno-omit-frame-pointer
 
 CXX_G   := g++
 CXX_C   := clang++
@@ -19,6 +19,7 @@ F_prod  := $(CXX_G) $(STD) -O1 -g1 -DNDEBUG $(SAN) $(DEFS) $(INCS) $(WARN)
 F_dbg   := $(CXX_G) $(STD) -O1 -g1 $(SAN) $(DEFS) $(INCS) $(WARN)
 F_hooks := $(CXX_G) $(STD) -O1 -g1 -DNDEBUG -DMP_VERIF_HOOKS $(SAN) $(DEFS) $(INCS) $(WARN)
 F_fuzz  := $(CXX_C) $(STD) -O1 -g -DNDEBUG -fsanitize=fuzzer-no-link,address,undefined -fno-sanitize-recover=undefined $(DEFS) $(INCS) $(WARN)
+F_vd    := $(CXX_C) $(STD) -O0 -g1 -DNDEBUG $(SAN) $(DEFS) $(INCS) $(WARN)
 F_plain := $(CXX_G) $(STD) -O2 -g1 -DNDEBUG $(DEFS) $(INCS) $(WARN)
 
 MP_SRC := src/expr.cc src/nl-reader.cc src/option.cc src/os.cc src/problem.cc src/rstparser.cc \
@@ -31,7 +32,7 @@ NLW_SRC := nl-writer2/src/dtoa.cc nl-writer2/src/nl-model-c.cc nl-writer2/src/nl
 objs = $(addprefix $(B)/$(1)/,$(addsuffix .o,$(2)))
 
 define FLAVOUR
-$(B)/$(1)/%.o: $(REPO)/%
+$(B)/$(1)/%.o: $(REPO)/% Makefile
 	@mkdir -p $$(dir $$@)
 	$$(F_$(1)) -MMD -MP -c $$< -o $$@
 $(B)/$(1)/libmp.a: $(call objs,$(1),$(MP_SRC))
@@ -43,10 +44,10 @@ $(B)/$(1)/%: shims/%.cc $(B)/$(1)/libmp.a $(B)/$(1)/libnlw2.a
 	@mkdir -p $$(dir $$@)
 	$$(F_$(1)) -Ishims -MMD -MP -MF $$@.d $$< -o $$@ $(B)/$(1)/libmp.a $(B)/$(1)/libnlw2.a $$(LIBS_$$(notdir $$@)) -ldl
 endef
-$(foreach f,prod dbg hooks plain,$(eval $(call FLAVOUR,$(f))))
+$(foreach f,prod dbg hooks plain vd,$(eval $(call FLAVOUR,$(f))))
 
 # fuzz flavour: objects with fuzzer-no-link, targets linked with -fsanitize=fuzzer
-$(B)/fuzz/%.o: $(REPO)/%
+$(B)/fuzz/%.o: $(REPO)/% Makefile
 	@mkdir -p $(dir $@)
 	$(F_fuzz) -MMD -MP -c $< -o $@
 $(B)/fuzz/libmp.a: $(call objs,fuzz,$(MP_SRC))
@@ -61,8 +62,16 @@ $(B)/fuzz/%: fuzz/%.cc $(B)/fuzz/libmp.a $(B)/fuzz/libnlw2.a
 LIBS_safeint_check := -lrapidcheck
 LIBS_gsl_shim := -lgsl -lgslcblas -lm
 
+# vdriver: three TUs (the converter instantiation dominates), clang -O0 ASan+UBSan: ~95 s instead of 5.5 min
+VD_OBJS := $(B)/vd/shimobj/vdriver.o $(B)/vd/shimobj/vd_connect.o $(B)/vd/shimobj/vd_mm.o
+$(B)/vd/shimobj/%.o: shims/%.cc Makefile
+	@mkdir -p $(dir $@)
+	$(F_vd) -Ishims -MMD -MP -c $< -o $@
+$(B)/vd/vdriver: $(VD_OBJS) $(B)/vd/libmp.a
+	$(F_vd) $(VD_OBJS) -o $@ $(B)/vd/libmp.a -ldl
+
 # header-only checks that gain nothing from ASan (C17): UBSan only, no libmp
-$(B)/ub/%: shims/%.cc
+$(B)/ub/%: shims/%.cc Makefile
 	@mkdir -p $(dir $@)
 	$(CXX_G) $(STD) -O2 -g1 -DNDEBUG -fsanitize=undefined -fno-sanitize-recover=undefined $(DEFS) $(INCS) $(WARN) \
 	  -MMD -MP -MF $@.d $< -o $@ $(LIBS_$(notdir $@))
@@ -75,7 +84,7 @@ SHIMS_plain :=
 FUZZERS     :=
 -include targets.mk
 
-ALL := $(addprefix $(B)/ub/,$(SHIMS_ub)) $(addprefix $(B)/prod/,$(SHIMS_prod)) $(addprefix $(B)/dbg/,$(SHIMS_dbg)) \
+ALL := $(VDRIVER) $(addprefix $(B)/ub/,$(SHIMS_ub)) $(addprefix $(B)/prod/,$(SHIMS_prod)) $(addprefix $(B)/dbg/,$(SHIMS_dbg)) \
        $(addprefix $(B)/hooks/,$(SHIMS_hooks)) $(addprefix $(B)/plain/,$(SHIMS_plain)) \
        $(addprefix $(B)/fuzz/,$(FUZZERS))
 
